@@ -170,7 +170,7 @@ class Core:
             return
         if z3.is_false(c):
             raise PathEnd()
-        self.st.pc.append(c)
+        self.st.pc.append(cond)     # unsimplified: prints as standard SMT-LIB for cvc5
 
     def feasible(self, cond):
         """True if pc & cond may be satisfiable (unknown counts as feasible).
@@ -218,14 +218,15 @@ class Core:
         """Fork over mutually exclusive, jointly exhaustive conditions;
         returns the index taken on this path."""
         st = self.st
-        simp = [z3.simplify(c if not isinstance(c, bool) else z3.BoolVal(c)) for c in conds]
+        conds = [c if not isinstance(c, bool) else z3.BoolVal(c) for c in conds]
+        simp = [z3.simplify(c) for c in conds]
         trues = [i for i, c in enumerate(simp) if z3.is_true(c)]
         if trues:
             return trues[0]
         if st.dpos < len(st.decisions):
             d = st.decisions[st.dpos]
             st.dpos += 1
-            st.pc.append(simp[d])
+            st.pc.append(conds[d])
             return d
         feas = [i for i, c in enumerate(simp) if not z3.is_false(c) and self.feasible(c)]
         if not feas:
@@ -235,7 +236,7 @@ class Core:
         d = feas[0]
         st.decisions.append(d)
         st.dpos += 1
-        st.pc.append(simp[d])
+        st.pc.append(conds[d])
         return d
 
     def branch(self, cond):
@@ -252,7 +253,7 @@ class Core:
         # continue under the assumption that it holds
         g = z3.simplify(goal)
         if not z3.is_false(g) and not z3.is_true(g):
-            self.st.pc.append(g)
+            self.st.pc.append(goal)
         return ob
 
     def safe_site(self, name):
